@@ -46,7 +46,11 @@ P("C01", ["R08", "R09", "R10", "R11", "R12", "R13c", "R17", "R07", "R34", "R39",
   "in the second/minute/hour/day/week chain is dimensionally consistent "
   "(169 obligations); R13c the result keeps the receiver's date "
   "representation; R17 Duration.to_days/_get_non_nominal_seconds cover all "
-  "exact slots.",
+  "exact slots; R47 carries of 1-based fields use `>`/`< 1`, and after its "
+  "carry each radix field is left as exactly its remainder (no rounding "
+  "that can reach the radix); R50 a month length is asked for with the "
+  "year of the same object wherever that year is known; R04 no memoised "
+  "length helper outlives a mode switch.",
   "that the carried value is numerically the shifted instant (off-by-one "
   "inside the day-of-month walk, float rounding of fractional units).",
   ["24:00 receivers keep 24:00 on paths that apply no exact unit (required "
@@ -213,9 +217,12 @@ P("C10", ["R27", "R26", "R12"],
   "matching \\d+ = integer-typed constructor arguments; the decimal comma "
   "and the leading '-' are consumed by the reader; the empty duration's "
   "spelling matches a regex; the date-time-like spelling maps each field "
-  "to the unit of the same name and refuses week dates; R26 the sign factor "
-  "multiplies every captured unit.",
-  "float -> str -> float fidelity, exponent notation.", [], [])
+  "to the unit of the same name and refuses week dates; unit values are "
+  "written with str() only (no fixed precision) and every spelling str() "
+  "gives a float (plain, decimal comma/point, exponent) is read back whole "
+  "by the regexes; every field is written behind the all-negative guard; "
+  "R26 the sign factor multiplies every captured unit.",
+  "float -> str -> float fidelity of the digits themselves.", [], [])
 
 P("C11", ["R16", "R17", "R12", "R07", "R40", "R41"],
   "projection-set comparison of eq/hash/ordering, slot-coverage checks, "
@@ -253,9 +260,11 @@ P("C13", ["R19", "R43"],
   "obtain their points only from iteration of the recurrence, membership is "
   "equality with an iterated point, and the two early exits test the "
   "direction __iter__ walks under the same guard; neighbours move by one "
-  "interval and are None for single points.",
+  "interval and are None for single points; the exact-interval shortcut of "
+  "get_first_after adds period - remainder (strictly positive), never a "
+  "bare remainder.",
   "that the closed form of get_first_after (divmod of second counts) lands "
-  "on the earliest later member.", [], [])
+  "on the earliest later member for every probe.", [], [])
 
 P("C14", ["R18", "R16", "R28", "R17"],
   "abstract interpretation of __add__ re-entering the constructor, "
@@ -266,8 +275,12 @@ P("C14", ["R18", "R16", "R28", "R17"],
   "delegates; R16 __eq__ compares every constructor-given component "
   "(incl. the interval) and __hash__ projects a subset of them; R28 "
   "__str__ writes each notation in the component order a recurrence regex "
-  "reads, and regex groups reach the constructor keyword of the same "
-  "meaning.",
+  "reads, every component is written as str() of the stored component "
+  "itself, and regex groups reach the constructor keyword of the same "
+  "meaning; identity components are compared/hashed as they are (no "
+  "projecting method in between); R17 a Duration method that rewrites "
+  "slots through a literal name list covers all seven unit slots (so "
+  "r - d negates the week form too).",
   "(r + d) - d == r and identical iteration over values.", [], [])
 
 P("C15", ["R04", "R05", "R06", "R07", "R30", "R03", "R12", "R39"],
@@ -354,7 +367,10 @@ P("C19", ["R30", "R20", "R32", "R12", "R51"],
   "is kept as print format, recurrence output is the first N items in "
   "order; R20 every raise reachable under the dispatch is ValueError-"
   "derived; R32 the printed sign and the operand order of the difference "
-  "agree; R12 --as-total divides seconds by 60/3600.",
+  "agree; R12 --as-total divides seconds by 60/3600; R51 offsets are "
+  "applied one after the other (no parsed duration is added to another); "
+  "the --utc conversion precedes every return of date_parse; an option "
+  "with an environment fallback has no argparse default.",
   "the text printed for all argument vectors; argparse behaviour.",
   ["an invalid ISODATETIMECALENDAR raises KeyError in the constructor, "
    "outside the handler (an environment variable, not an argument) - noted"],
@@ -369,7 +385,11 @@ P("C20", ["R08", "R14", "R09", "R10", "R12", "R23", "R13c", "R36", "R46", "R47",
   "operand re-expressed in the truncated operand's zone and the result is "
   "converted back to the full operand's zone, the commuted order "
   "delegates; R09/R10 the normaliser's carries agree; R23 every truncated "
-  "year-part key is in the parser's year-presence list.",
+  "year-part key is in the parser's year-presence list; R46 each requested "
+  "field is written only inside its own search loop, loops run smallest "
+  "unit first, and a requested time unit zeroes every lower unit that was "
+  "not requested (decision table of the defaulting prologue); R04 no "
+  "memoised length helper outlives a mode switch.",
   "earliest match, idempotence and termination (they depend on which values "
   "the cyclic fields can take).",
   ["-W53 + p does not terminate in the 360-day calendar (MAX_WEEKS_IN_YEAR "
